@@ -368,7 +368,7 @@ CANARIES = [
     ("responses popped from the wrong end", {IPC: lambda s: s.replace("                    next_callback = self.result_cbs.pop(0)", "                    next_callback = self.result_cbs.pop()")}, None),
     ("events consumed as responses", {IPC: lambda s: s.replace('                elif http_name == "event":\n                    self.connection.event_received(self.current_response)', '                elif http_name == "event":\n                    self.result_cbs.pop(0).set_result(self.current_response)')}, None),
     ("transport kept after a timeout", {IPC: lambda s: s.replace("            self.transport.write_eof()\n            self.transport.close()\n            if isinstance(ex, asyncio.TimeoutError):", "            if isinstance(ex, asyncio.TimeoutError):")}, None),
-    ("pending requests not failed on loss", {IPC: lambda s: s.replace("        # must not tear down the connection that is in use now\n        self._cancel_pending_requests()", "        # must not tear down the connection that is in use now")}, None),
+    ("pending requests not failed on loss", {IPC: lambda s: s.replace("        # connection that is in use now nor start another connector\n        self._cancel_pending_requests()", "        # connection that is in use now nor start another connector")}, None),
 ]
 
 ASSUMPTIONS = [
